@@ -236,8 +236,8 @@ theorem maIndexOf_some {m : MA} {p : PosV} {ix : Nat} (h : maIndexOf m p = some 
   simp [List.getElem?_eq_getElem h1] at h2 ⊢
   exact h2
 
-theorem voteBody_none (ob : Batch) (isAck : Bool) (task i : Nat) (m : MA) (s : PS) (h : itemAt m ob i = none) :
-    exec (voteBody ob isAck task i m) s = (.error (.err plainErr), s) := by
+theorem voteBody_none (id : Nat) (ob : Batch) (isAck : Bool) (task i : Nat) (m : MA) (s : PS) (h : itemAt m ob i = none) :
+    exec (voteBody id ob isAck task i m) s = (.error (.err plainErr), { s with mas := s.mas.set! id m }) := by
   unfold itemAt at h
   have : maIndexOf m (ob.pos[i]?).join = none := by
     cases hh : maIndexOf m (ob.pos[i]?).join with
@@ -247,31 +247,37 @@ theorem voteBody_none (ob : Batch) (isAck : Bool) (task i : Nat) (m : MA) (s : P
   rw [this]
   rfl
 
-/-- the vote loop of `multiAckNacker.Ack/Nack`: state untouched; if it completes, the tally was
-given one vote per listed position. -/
-theorem voteLoop_spec (ob : Batch) (isAck : Bool) (task : Nat) (hr : ob.pos.length ≤ ob.recs.length)
+/-- a tally reached from `m` by votes: same positions, branches, release cursor; invariant kept -/
+def VGood (m m' : MA) : Prop :=
+  MOK m' ∧ m'.positions = m.positions ∧ m'.branches = m.branches ∧ m'.released = m.released
+
+/-- the vote loop of `multiAckNacker.Ack/Nack`: if it completes, the state is untouched and the tally
+was given one vote per listed position; if it fails on a position that is not part of the fan-out
+batch, the votes recorded so far are written back to tally `id` (nothing else changes). -/
+theorem voteLoop_spec (id : Nat) (ob : Batch) (isAck : Bool) (task : Nat) (hr : ob.pos.length ≤ ob.recs.length)
     (hst : ob.pos.length ≤ ob.st.length) (hne : isAck = false → NackOK ob) (s : PS) :
     ∀ (l : List Nat) (m : MA), MOK m → (∀ i ∈ l, i < ob.pos.length) →
-    ∀ (r : Except Stop MA) (s1 : PS), exec (forIn l m (voteBody ob isAck task)) s = (r, s1) →
-      s1 = s ∧ ∀ m', r = .ok m' → MOK m' ∧ m'.positions = m.positions ∧ m'.branches = m.branches ∧
+    ∀ (r : Except Stop MA) (s1 : PS), exec (forIn l m (voteBody id ob isAck task)) s = (r, s1) →
+      (s1 = s ∨ ((∃ e, r = .error e) ∧ ∃ m', s1 = { s with mas := s.mas.set! id m' } ∧ VGood m m')) ∧
+      ∀ m', r = .ok m' → s1 = s ∧ MOK m' ∧ m'.positions = m.positions ∧ m'.branches = m.branches ∧
         m'.released = m.released ∧ VA m m' (l.map fun i => keyOf (ob.pos[i]?).join) := by
   intro l
   induction l with
   | nil =>
     intro m hm _ r s1 h
     cases h
-    exact ⟨rfl, fun m' h => by cases h; exact ⟨hm, rfl, rfl, rfl, VA.refl _⟩⟩
+    exact ⟨Or.inl rfl, fun m' h => by cases h; exact ⟨rfl, hm, rfl, rfl, rfl, VA.refl _⟩⟩
   | cons i l ih =>
     intro m hm hl r s1 h
     have hi := hl i List.mem_cons_self
     rw [List.forIn_cons, exec_bind] at h
     cases hit : itemAt m ob i with
     | none =>
-      rw [voteBody_none ob isAck task i m s hit] at h
+      rw [voteBody_none id ob isAck task i m s hit] at h
       cases h
-      exact ⟨rfl, fun m' h => by cases h⟩
+      exact ⟨Or.inr ⟨⟨_, rfl⟩, m, rfl, hm, rfl, rfl, rfl⟩, fun m' h => by cases h⟩
     | some it =>
-      rw [voteBody_step ob isAck task i m it s (by omega) (by omega) hit] at h
+      rw [voteBody_step id ob isAck task i m it s (by omega) (by omega) hit] at h
       dsimp only at h
       have hit' := hit
       unfold itemAt at hit'
@@ -292,9 +298,12 @@ theorem voteLoop_spec (ob : Batch) (isAck : Bool) (task : Nat) (hr : ob.pos.leng
         have hva := maVote1_VA m isAck task it hm (by rw [e1]; exact hlt)
         rw [e1, hk] at hva
         obtain ⟨g1, g2⟩ := ih (maVote1 m isAck task it) hm1 (fun j hj => hl j (List.mem_cons_of_mem _ hj)) r s1 h
-        refine ⟨g1, fun m' hm' => ?_⟩
-        obtain ⟨k1, k2, k3, k4, k5⟩ := g2 m' hm'
-        refine ⟨k1, k2.trans f2, k3.trans f3, k4.trans f1, ?_⟩
+        refine ⟨?_, fun m' hm' => ?_⟩
+        · rcases g1 with g1 | ⟨ge, m', g1, k1, k2, k3, k4⟩
+          · exact Or.inl g1
+          · exact Or.inr ⟨ge, m', g1, k1, k2.trans f2, k3.trans f3, k4.trans f1⟩
+        obtain ⟨k0, k1, k2, k3, k4, k5⟩ := g2 m' hm'
+        refine ⟨k0, k1, k2.trans f2, k3.trans f3, k4.trans f1, ?_⟩
         have := VA.trans f2 hva k5
         simpa using this
 
@@ -468,6 +477,25 @@ theorem range_map_keys (ps : List PosV) : (List.range ps.length).map (fun i => k
   · simp [hn]
   · simp [hn]
 
+/-- writing back a tally reached by votes: a quiet step for the parent, safe for the tally -/
+theorem tally_set (hle : C.top ≤ id) (s : PS) (m' : MA) (hv : MValid C id s) (hg : VGood (s.mas[id]!) m') :
+    MSafe C id s { s with mas := s.mas.set! id m' } ∧ MValid C id { s with mas := s.mas.set! id m' } ∧
+    C.Done [] s { s with mas := s.mas.set! id m' } := by
+  obtain ⟨k1, k2, k3, k4⟩ := hg
+  generalize hs2 : ({ s with mas := s.mas.set! id m' } : PS) = s2
+  have hm2 : s2.mas[id]! = m' := by rw [← hs2]; exact set!_get _ _ _ hv.2.1
+  have hsz2 : s2.mas.size = s.mas.size := by rw [← hs2]; simp [Array.set!]
+  have hoth : ∀ i : Nat, i ≠ id → s2.mas[i]! = s.mas[i]! := by
+    intro i hi; rw [← hs2]; exact (set!_other s.mas id i _ (Ne.symm hi)).2
+  have hq : Quiet C.top s s2 :=
+    ⟨by rw [← hs2], by rw [hsz2]; exact Nat.le_refl _, fun i hi => hoth i (by omega), by rw [← hs2]; exact fun h => h⟩
+  have hd12 : C.Done [] s s2 := C.quiet_done hv.1 hq
+  have hv2 : MValid C id s2 :=
+    ⟨C.partial_valid hv.1 (C.done_partial hd12), by rw [hsz2]; exact hv.2.1, by rw [hm2]; exact k1⟩
+  refine ⟨⟨by rw [hsz2]; exact Nat.le_refl _, by rw [hm2, k2], by rw [hm2, k3], by rw [hm2, k4]; exact Nat.le_refl _, ?_, fun _ => hv2⟩,
+    hv2, hd12⟩
+  rw [hm2, k4, slice_self]; exact Run.of_done hd12
+
 /-- `multiAckNacker.Ack/Nack` -/
 theorem multi_call (hle : C.top ≤ id) (fuel : Nat) (b : Batch) (isAck : Bool) (task : Nat) (s : PS)
     (r : Except Stop Unit) (s' : PS) (hv : MValid C id s) (hb : BOK b) (hn : isAck = false → NackOK b)
@@ -484,20 +512,26 @@ theorem multi_call (hle : C.top ≤ id) (fuel : Nat) (b : Batch) (isAck : Bool) 
     obtain ⟨o1, o2, o3⟩ := orig_ok hb
     generalize b.original = ob at h o1 o2 o3
     rw [exec_bind] at h
-    rcases hf : exec (forIn (List.range ob.pos.length) (s.mas[id]!) (voteBody ob isAck task)) s with ⟨r1, s1⟩
+    rcases hf : exec (forIn (List.range ob.pos.length) (s.mas[id]!) (voteBody id ob isAck task)) s with ⟨r1, s1⟩
     rw [hf] at h
-    obtain ⟨e1, e2⟩ := voteLoop_spec ob isAck task (by rw [o1, o3, hb.pos_len]; exact Nat.le_refl _)
+    obtain ⟨e1, e2⟩ := voteLoop_spec id ob isAck task (by rw [o1, o3, hb.pos_len]; exact Nat.le_refl _)
       (by rw [o1, o2, hb.pos_len, hb.st_len]; exact Nat.le_refl _)
       (fun hi => by unfold NackOK; rw [o2]; exact hn hi) s _ _ hv.2.2
       (fun i hi => List.mem_range.mp hi) r1 s1 hf
-    subst e1
     cases r1 with
     | error e =>
       dsimp only at h; cases h
-      exact ⟨MSafe.refl _, (fun h => nomatch h), rfl, fun _ _ => rfl, rfl⟩
+      rcases e1 with e1 | ⟨_, m', e1, hg⟩
+      · subst e1
+        exact ⟨MSafe.refl _, (fun h => nomatch h), rfl, fun _ _ => rfl, rfl⟩
+      · subst e1
+        obtain ⟨t1, _, _⟩ := tally_set hle s m' hv hg
+        refine ⟨t1, (fun h => nomatch h), by simp [Array.set!], fun i hi => ?_, rfl⟩
+        exact (set!_other s.mas id i _ (by omega)).2
     | ok m' =>
       dsimp only at h
-      obtain ⟨k1, k2, k3, k4, k5⟩ := e2 m' rfl
+      obtain ⟨k0, k1, k2, k3, k4, k5⟩ := e2 m' rfl
+      subst k0
       rw [range_map_keys, o1] at k5
       rw [exec_bind, exec_modify] at h
       dsimp only at h
